@@ -22,21 +22,22 @@ REQUIRED = {"evaluations": 1000, "views_run": 1000, "gen:skel": 100, "gen:cmd": 
 def plan(tier, seed):
     quick = tier == "quick"
     shards = []
-    items = skel.plan(500 if quick else 6000)
-    nsh = 5 if quick else 8
-    for i in range(nsh):
-        shards.append({"name": f"skel{i}", "gen": "skel", "items": items[i::nsh]})
-    shards.append({"name": "xor", "gen": "xor"})
-    nru = 3 if quick else 4
-    for i in range(nru):
-        shards.append({"name": f"repeatunit{i}", "gen": "repeatunit", "shard": i, "nshards": nru})
     secs = 25 if quick else 300
+    # time-bounded shards first, then many small finite shards: the pool keeps all workers busy
     for g in ("cmd", "pe", "xorbytes", "matryoshka", "nesting", "seedmut", "reuse") + (() if quick else ("soup",)):
         shards.append({"name": g, "gen": g, "seconds": secs})
     if not quick:
         shards.append({"name": "seedmut2", "gen": "seedmut", "seconds": secs})
         shards.append({"name": "cmd2", "gen": "cmd", "seconds": secs})
         shards.append({"name": "large", "gen": "large", "seconds": secs})
+    items = skel.plan(500 if quick else 6000)
+    nsh = 10
+    for i in range(nsh):
+        shards.append({"name": f"skel{i}", "gen": "skel", "items": items[i::nsh]})
+    shards.append({"name": "xor", "gen": "xor"})
+    nru = 10
+    for i in range(nru):
+        shards.append({"name": f"repeatunit{i}", "gen": "repeatunit", "shard": i, "nshards": nru})
     return shards
 
 
